@@ -29,7 +29,9 @@ def run(ctx):
         "servers are never restarted during an execution (a restarted server stamps from generation 0 again; Net.tla with Restarts=1 shows the handshake then fails - outside C10's quantifier)",
         "trigger names contain no NUL byte and are not empty (the wire format is NUL-terminated; the server refuses such stores)",
         "each client object is used by one thread (its L1 is private to it) in the threaded leg",
-        "values in history drivers carry their id (bytes 0..255 incl. NUL); the empty value and values up to 64 KiB are covered by the wire driver",
+        "value alphabet of every history driver (exhaustive, random, threaded): fresh id-carrying values (bytes 0..255 incl. NUL), the EMPTY "
+        "string (value code 0: a hit with no bytes, distinct from a miss) and a proper prefix of the value stored before; each client passes one "
+        "reused, never cleared std::string to all its fetches; values up to 64 KiB only in the wire driver",
         "TLC explores Net.tla for <= 3 clients, <= 2 servers, <= 2 keys, 1 trigger; larger alphabets only through validated traces",
     ]
     if ctx.replay:      # vcheck C10 --replay <file>: judge one recorded trace again
@@ -63,7 +65,8 @@ def legD(ctx, q):
         complete = complete and r.complete and not r.violated
     ctx.extra["exhaustive"] = complete
     # the invariants bite: broken designs must violate them
-    muts = [("Net_m_l1hit.cfg", "Coherent"), ("Net_m_union.cfg", "Wire"), ("Net_m_genreset.cfg", "GenUnique")]
+    muts = [("Net_m_l1hit.cfg", "Coherent"), ("Net_m_union.cfg", "Wire"), ("Net_m_genreset.cfg", "GenUnique"),
+            ("Net_m_emptykeep.cfg", "Coherent")]
     if not q:
         muts += [("Net_m_genreset_coh.cfg", "Coherent"), ("Net_m_restart.cfg", "Coherent")]
     for cfg, inv in muts:
@@ -81,10 +84,17 @@ def legB(ctx, q, netcache):
     jobs = []   # (tag, args, env, kind)
     def seq(tag, *args, shard=None):
         jobs.append((tag, [str(a) for a in args], {"VERIF_SHARD": shard} if shard else {}, "seq"))
+    # exh mode bits: 1 deadlines 0/1 + tick, 2 no rise(key), 4 value kinds {fresh full value, EMPTY value, proper
+    # prefix of the previous value}.  Every client reuses one output string for all its fetches.
     if q:
         for sh in range(2):
             seq("exh-l1l1-%d" % sh, "exh", 1, 2, 3, 1, 1, 4, 0, shard="%d/2" % sh)
-            seq("exh-l1none-%d" % sh, "exh", 1, 2, 1, 1, 1, 4, 0, shard="%d/2" % sh)
+            # value kinds; c0 has an L1, c1 has none (reused-buffer path), 1 and 2 servers:
+            # contains  c0.fetch k (non-empty) ; c1.store k := "" ; c0.fetch k   and the mirror image
+            seq("exh-val-1s-%d" % sh, "exh", 1, 2, 1, 1, 0, 4, 4, shard="%d/2" % sh)
+            seq("exh-val-2s-%d" % sh, "exh", 2, 2, 1, 1, 0, 4, 4, shard="%d/2" % sh)
+        seq("exh-val-l1l1", "exh", 1, 2, 3, 1, 0, 3, 4)
+        seq("exh-l1none", "exh", 1, 2, 1, 1, 1, 3, 0)
         seq("exh-3c2s", "exh", 2, 3, 3, 2, 1, 3, 2)
         seq("exh-clock", "exh", 1, 2, 3, 1, 1, 3, 1)
         for i, (ns, nc, mask, lim) in enumerate([(1, 2, 3, 0), (1, 2, 1, 0), (2, 3, 7, 0), (2, 3, 5, 2), (1, 3, 3, 1), (3, 3, 6, 0)]):
@@ -95,6 +105,12 @@ def legB(ctx, q, netcache):
         for s in range(4):
             seq("exh-l1l1-%d" % s, "exh", 1, 2, 3, 1, 1, 5, 0, shard="%d/4" % s)
             seq("exh-l1none-%d" % s, "exh", 1, 2, 1, 1, 1, 5, 0, shard="%d/4" % s)
+            seq("exh-val-1s-%d" % s, "exh", 1, 2, 1, 1, 0, 5, 4, shard="%d/4" % s)
+        for s in range(2):
+            seq("exh-val-2s-%d" % s, "exh", 2, 2, 1, 1, 0, 4, 4, shard="%d/2" % s)
+            seq("exh-val-l1l1-%d" % s, "exh", 1, 2, 3, 1, 0, 4, 4, shard="%d/2" % s)
+            seq("exh-val-2k2s-%d" % s, "exh", 2, 2, 1, 2, 0, 3, 6, shard="%d/2" % s)
+        seq("exh-val-3c2s", "exh", 2, 3, 5, 2, 0, 3, 6)
         for s in range(6):
             seq("exh-3c2s-%d" % s, "exh", 2, 3, 3, 2, 1, 4, 2, shard="%d/6" % s)
         seq("exh-3c2s-allL1", "exh", 2, 3, 7, 2, 1, 3, 0)
@@ -147,7 +163,7 @@ def legB(ctx, q, netcache):
             lines = f.readlines()
         for ln in lines[:3000]:
             ctx.seen(ln.split('"so"')[0][:90])
-        if nsample < 5 and kind == "seq" and ("exh-l1l1" in tag or "wire" in tag or "rand-3" in tag) or (kind == "thr" and nsample < 7 and "1s" in tag):
+        if nsample < 5 and kind == "seq" and ("exh-l1l1" in tag or "exh-val-1s" in tag or "wire" in tag or "rand-3" in tag) or (kind == "thr" and nsample < 7 and "1s" in tag):
             nsample += 1
             ctx.sample({"driver": args, "first_events": [x.strip()[:400] for x in lines[:5]]})
         if args[0] == "wire":
